@@ -271,6 +271,12 @@ func (ch c05) Run(c *core.Ctx) {
 			text += core.Pick(core.NewRng(c.Seed, "C05text", 0, idx), []string{" caf\xe9", " \uFFFD", " \xff\xfe\x80", " \xc3", " 漢字 😀", " \x01\x1b[31m"})
 			c.Count("query_texts_with_unusual_bytes", 1)
 		}
+		if (idx/nb)%11 == 3 {
+			// the statements drivers and connection poolers send on their own account: to this library they
+			// are query texts like any other - the application's parser decides what they do
+			text = c05wellKnown[(idx/nb/11)%len(c05wellKnown)]
+			c.Count("queries_that_drivers_send_on_their_own", 1)
+		}
 		if s.Kind == "blank" {
 			text = s.Text
 		} else {
@@ -625,3 +631,6 @@ func c05wide(n int) []any {
 	c05wideRows[n] = r
 	return r
 }
+
+var c05wellKnown = []string{"DISCARD ALL", "discard all;", "RESET ALL", "DEALLOCATE ALL", "BEGIN", "COMMIT", "ROLLBACK", "SELECT 1", "select version()", "SET client_encoding TO 'UTF8'", "SET extra_float_digits = 3",
+	"SHOW transaction_read_only", "SHOW server_version", "UNLISTEN *", "CLOSE ALL", "SELECT pg_backend_pid()", "SET application_name = 'x'", "START TRANSACTION ISOLATION LEVEL SERIALIZABLE", "-- ping", "/* ping */ SELECT 1"}
